@@ -312,11 +312,15 @@ func c08Gen(r *rand.Rand, n int, tier string) []string {
 				case "level":
 					key = pick(r, []string{"0", "1", "2"})
 				case "tag":
-					key = pick(r, []string{"a", "b"})
+					key = pick(r, []string{"a", "b", "", "0"}) // "" and "0" name the same map entry
 				default:
 					key = pick(r, []string{"", "", "0"})
 				}
-				pts = append(pts, fmt.Sprintf("%s,%s,%s,%s,%d,0,%s,-", hxs(ty), hxs(key), valStr(float64(r.Intn(20))), hxs(pick(r, []string{"", "t", "uv"})), tick(), hxs(origin)))
+				tomb := 0
+				if ty == "tag" && r.Intn(3) == 0 {
+					tomb = 1 // a map entry is deleted by a tombstoned point of its key
+				}
+				pts = append(pts, fmt.Sprintf("%s,%s,%s,%s,%d,%d,%s,-", hxs(ty), hxs(key), valStr(float64(r.Intn(20))), hxs(pick(r, []string{"", "t", "uv"})), tick(), tomb, hxs(origin)))
 			}
 			if r.Intn(8) == 0 {
 				// a batch the store refuses (a not-a-number value somewhere in it): the writer gets an error, nothing is
